@@ -12,6 +12,12 @@
 (* and logs one line per store:                                            *)
 (*                                                                         *)
 (*  Reset                                  start of a history              *)
+(*  DF st w ns nv sx first exec ka wg init chg                             *)
+(*                                         lifetime history on the real    *)
+(*                                         emu.ComputeUnit: wavefront w of *)
+(*                                         a freshly mapped work-group,    *)
+(*                                         observed before it wrote        *)
+(*                                         anything (FreshCells)           *)
 (*  D  st w ns nv init chg                 wavefront w dispatched; init =  *)
 (*                                         its non-zero registers          *)
 (*  W  st w api k i c lane d chg           WriteOperand (api WO, d = the   *)
@@ -120,6 +126,35 @@ TDispatch ==
                 ELSE T!Dispatch(Ev.w, a, InitFn) /\ UNCHANGED <<allocE, cellE>>
   /\ UNCHANGED held
 
+\* ------------------------------------------- the first state of a wavefront
+\* Lifetime histories on the real emu.ComputeUnit (line DF): the wavefront was
+\* created by the compute unit for a freshly mapped work-group - possibly after
+\* earlier work-groups with other register counts ran and completed on the same
+\* unit - and has executed s_nop only.  Its registers hold what the dispatch
+\* ABI defines (exec = the initial execution mask; v0 = work-item id x of each
+\* lane; s[0:1] = kernarg segment address if enabled, then the work-group id x
+\* if enabled) and ZERO everywhere else, whatever any earlier wavefront wrote.
+Le4(v) == <<v % 256, (v \div 256) % 256, 0, 0>>
+SInitSeq == (IF Len(Ev.ka) = 8 THEN <<SubSeq(Ev.ka, 1, 4), SubSeq(Ev.ka, 5, 8)>> ELSE <<>>)
+            \o (IF Len(Ev.wg) = 4 THEN <<Ev.wg>> ELSE <<>>)
+FreshVal(c) ==
+  CASE c = 126 -> SubSeq(Ev.exec, 1, 4)
+    [] c = 127 -> SubSeq(Ev.exec, 5, 8)
+    [] c < Len(SInitSeq) -> SInitSeq[c + 1]
+    [] c >= 256 /\ c % 256 = 0 /\ Ev.nv > 0 -> Le4((Ev.first + (c \div 256) - 1) % Ev.sx)
+    [] OTHER -> ZeroBytes(c)
+FreshDefined == {126, 127} \cup 0..(Len(SInitSeq) - 1) \cup (IF Ev.nv > 0 THEN {256 * (n + 1) : n \in 0..63} ELSE {})
+FreshCells ==
+  /\ Len(SInitSeq) <= Ev.ns
+  /\ \A x \in DOMAIN InitFn : x[1] = Ev.w /\ InitFn[x] = FreshVal(x[2])          \* nothing but the defined values
+  /\ \A c \in FreshDefined : FreshVal(c) # ZeroBytes(c) => <<Ev.w, c>> \in DOMAIN InitFn   \* and all of them
+
+TFresh ==
+  /\ Is("DF") /\ Emu /\ Quiet
+  /\ FreshCells
+  /\ E!Dispatch(Ev.w, [ns |-> Ev.ns, nv |-> Ev.nv], InitFn)
+  /\ UNCHANGED <<allocT, cellT, held>>
+
 TRelease ==
   /\ Is("X") /\ Quiet                           \* ending a wavefront changes nobody else's registers
   /\ IF Emu THEN E!Release(Ev.w) /\ UNCHANGED <<allocT, cellT>>
@@ -201,7 +236,7 @@ TPanic ==
      \/ Emu /\ Ev.k \in {"s", "v"} /\ Ev.api \in {"RB", "RR"} /\ Len(Cells) > 8 /\ Dev("EmuReadRegOver8")
   /\ Keep
 
-TNext == TReset \/ TDispatch \/ TRelease \/ TWrite \/ TRead \/ THeld \/ TPanic
+TNext == TReset \/ TDispatch \/ TFresh \/ TRelease \/ TWrite \/ TRead \/ THeld \/ TPanic
 TSpec == TInit /\ [][TNext]_tvars
 
 Mark == HWNote(l)
